@@ -19,6 +19,7 @@ type Env struct {
 	pkgPath string
 	lookup  func(name string) (Value, bool)
 	inQuant int
+	congr   bool // evaluating operands of same(): build exactly the code's uninterpreted terms
 }
 
 type specError struct{ msg string }
@@ -616,9 +617,6 @@ func (env *Env) binop(x *SExpr) Value {
 	a, b := env.unify(env.eval(x.Args[0]), env.eval(x.Args[1]))
 	switch {
 	case isFloat(a.T):
-		if env.inQuant > 0 {
-			specFail("rounded float arithmetic inside a quantifier is not supported: %s", x)
-		}
 		return e.floatBin(x.Name, a, b, a.T)
 	case a.T == realType:
 		switch x.Name {
@@ -741,7 +739,15 @@ func (env *Env) call(x *SExpr) Value {
 		}
 		return Value{T: a.T, S: []string{"(ite (" + op + " " + a.S[0] + " " + b.S[0] + ") " + a.S[0] + " " + b.S[0] + ")"}}
 	case "same":
-		a, b := env.unify(env.eval(args[0]), env.eval(args[1]))
+		// bit-identity is a congruence fact: the operands are built as plain uninterpreted terms,
+		// no rounding-lemma instances are emitted for them
+		e.quiet++
+		n := *env
+		n.congr = true
+		a, b := func() (Value, Value) {
+			defer func() { e.quiet-- }()
+			return n.unify(n.eval(args[0]), n.eval(args[1]))
+		}()
 		if len(a.S) != len(b.S) {
 			specFail("same() on different shapes")
 		}
@@ -784,13 +790,33 @@ func (env *Env) call(x *SExpr) Value {
 	case "float64":
 		v := env.eval(args[0])
 		if isInteger(v.T) || v.T == untypedInt {
+			if env.congr && !isNumeral(v.S[0]) {
+				// the same uninterpreted term as the code's conversion (no lemma instance emitted)
+				return Value{T: tFloat64, S: []string{"0", "(rnd64 (to_real " + v.S[0] + "))"}}
+			}
 			if env.inQuant > 0 && !isNumeral(v.S[0]) {
 				// exact conversion only: callers must bound the argument by 2^53
 				return Value{T: tFloat64, S: []string{"0", "(to_real " + v.S[0] + ")"}}
 			}
 			return e.intToFloat(tFloat64, v.S[0])
 		}
+		if isFloat(v.T) {
+			return Value{T: tFloat64, S: v.S}
+		}
 		return env.coerce(v, tFloat64)
+	case "float32":
+		v := env.eval(args[0])
+		if !isFloat(v.T) {
+			specFail("float32() of %s", v.T)
+		}
+		if env.inQuant > 0 {
+			return Value{T: types.Typ[types.Float32], S: []string{"(fk_32 " + v.S[0] + " " + v.S[1] + ")", "(rnd32 " + v.S[1] + ")"}}
+		}
+		return e.convert(v, types.Typ[types.Float32])
+	case "round":
+		v := env.eval(args[0])
+		r, _ := e.mathCall("math.Round", []Value{v}, v.T)
+		return r
 	case "int":
 		v := env.eval(args[0])
 		if isFloat(v.T) {
@@ -846,7 +872,7 @@ func (env *Env) call(x *SExpr) Value {
 		pt := env.resolveTypeIn(p.Ty, pf.PkgPath)
 		vars[p.Name] = env.coerce(env.eval(args[i]), pt)
 	}
-	n := &Env{e: e, vars: vars, st: env.st, old: env.old, pkgPath: pf.PkgPath, inQuant: env.inQuant}
+	n := &Env{e: e, vars: vars, st: env.st, old: env.old, pkgPath: pf.PkgPath, inQuant: env.inQuant, congr: env.congr}
 	// quantified variables of the caller stay visible only through the arguments
 	r := n.eval(pf.Body)
 	if pf.Ret != "" {
